@@ -1,13 +1,15 @@
 //! C10: Grid::rcb vs Model/GridRcb.v — case generator and runner.
 //!
-//! Six consecutive cases share one input and run it under the rayon pools
-//! 1,2,3,4,8,16 (the median search reads `rayon::current_num_threads()`); the
+//! Consecutive cases share one input and run it under the rayon pools
+//! 1,2,3,4,8,16 (quick) / 1..16 (thorough) (the median search reads
+//! `rayon::current_num_threads()`); the
 //! Coq side runs the model with the same T and compares the ids exactly.
 use std::num::NonZeroUsize;
 use std::time::Duration;
 use verif_harness::*;
 
-const POOLS: [usize; 6] = [1, 2, 3, 4, 8, 16];
+const POOLS_QUICK: [usize; 6] = [1, 2, 3, 4, 8, 16];
+const POOLS_THOROUGH: [usize; 16] = [1, 2, 3, 4, 5, 6, 7, 8, 9, 10, 11, 12, 13, 14, 15, 16];
 
 #[derive(Clone)]
 struct Input {
@@ -59,7 +61,7 @@ fn gen_input(r: &mut Rng, tier: &str) -> Input {
     let big = tier == "thorough";
     let dims = gen_dims(r, big);
     let n: usize = dims.iter().product();
-    let fam = r.below(9);
+    let fam = r.below(11);
     let (name, ws): (&str, Vec<i64>) = match fam {
         0 => {
             let v = *r.pick(&[1i64, 1, 2, 7, 100]);
@@ -92,9 +94,21 @@ fn gen_input(r: &mut Rng, tier: &str) -> Input {
             let a = (n / 5).max(1);
             ("two_clusters", (0..n).map(|i| if i < a || i + a >= n { r.range(1, 20) } else { 0 }).collect())
         }
+        8 => {
+            // large values (total below 2^46: inside the range of theorem C10_thresholds)
+            ("large_values", (0..n).map(|_| r.range(0, 1 << 35)).collect())
+        }
+        10 => {
+            // giant i64 values: the total (up to 2^61) is not exactly representable in f64, the
+            // thresholds come from the ROUNDED total (`as f64`); correspondence only, i64 only
+            let per = ((1u64 << 61) / n as u64) as i64;
+            ("giant_i64", (0..n).map(|_| r.range(per / 3, per - 1)).collect())
+        }
         _ => {
-            // large values (sums still far below 2^53)
-            ("large_values", (0..n).map(|_| r.range(0, 1 << 36)).collect())
+            // huge values: total between 2^46 and 2^52 -- outside the proved range of the
+            // threshold facts, run for the model/implementation correspondence only
+            let per = ((1u64 << 52) / n as u64) as i64;
+            ("huge_values", (0..n).map(|_| r.range(per / 2, per - 1)).collect())
         }
     };
     let k = match r.below(10) {
@@ -102,7 +116,7 @@ fn gen_input(r: &mut Rng, tier: &str) -> Input {
         1 => 6,
         _ => r.range(0, 6) as usize,
     };
-    let fw = r.chance(1, 3);
+    let fw = name != "giant_i64" && r.chance(1, 3);
     Input { fam: name.to_string(), dims, ws, k, fw }
 }
 
@@ -144,22 +158,23 @@ fn main() {
     );
     let mut hangs = 0usize;
     let mut panics = 0usize;
-    let mut by_pool = [0usize; 6];
+    let pools: &[usize] = if a.tier == "thorough" { &POOLS_THOROUGH } else { &POOLS_QUICK };
+    let mut by_pool = [0usize; 17];
     let mut cur: Option<Input> = None;
     for idx in 0..a.cases {
         let mut r = rng.fork();
-        if idx % POOLS.len() == 0 || cur.is_none() {
+        if idx % pools.len() == 0 || cur.is_none() {
             cur = Some(gen_input(&mut r, &a.tier));
         }
         let inp = cur.clone().unwrap();
-        let threads = POOLS[idx % POOLS.len()];
+        let threads = pools[idx % pools.len()];
         if let Some(o) = a.only {
             if o != idx {
                 continue;
             }
         }
         let res = run_impl(&inp, threads);
-        by_pool[idx % POOLS.len()] += 1;
+        by_pool[threads] += 1;
         let (coq_impl, json_impl) = match &res {
             Guarded::Done(p) => (
                 format!("(IOk {})", coq_nlist(p.iter().map(|x| *x as u128))),
@@ -201,8 +216,11 @@ fn main() {
             break;
         }
     }
-    w.finish(&format!(
-        "\"hangs\":{},\"panics\":{},\"pool_1\":{},\"pool_2\":{},\"pool_3\":{},\"pool_4\":{},\"pool_8\":{},\"pool_16\":{}",
-        hangs, panics, by_pool[0], by_pool[1], by_pool[2], by_pool[3], by_pool[4], by_pool[5]
-    ));
+    let mut extra = format!("\"hangs\":{},\"panics\":{}", hangs, panics);
+    for (t, n) in by_pool.iter().enumerate() {
+        if *n > 0 {
+            extra.push_str(&format!(",\"pool_{}\":{}", t, n));
+        }
+    }
+    w.finish(&extra);
 }
